@@ -23,22 +23,23 @@ type world struct {
 	unitOf  map[string]int
 	rel     map[string]chan struct{} // release channels of entries with RelNS != 0
 
-	mu       sync.Mutex
-	relDone  map[string]bool
-	invoked  map[string]int
-	invLog   []string          // method entries in release order
-	returned map[string]int64  // virtual instant at which the method returned (method-running entries)
-	subIDs   map[string]string // subscribe entry name -> subscription id created by the server
-	notified map[string]int    // Notify calls issued per subscription (service side)
-	racy     map[int]bool      // units in which a same-instant timeout/return race was armed
-	timerAt  map[int]int64     // unit -> instant at which the handler's timeout timer fires (0 = none)
-	emitters sync.WaitGroup
+	mu        sync.Mutex
+	relDone   map[string]bool
+	invoked   map[string]int
+	invLog    []string          // method entries in release order
+	returned  map[string]int64  // virtual instant at which the method returned (method-running entries)
+	subIDs    map[string]string // subscribe entry name -> subscription id created by the server
+	notified  map[string]int    // Notify calls issued per subscription (service side)
+	racy      map[int]bool      // units in which a same-instant timeout/return race was armed
+	timerAt   map[int]int64     // unit -> instant at which the handler's timeout timer fires (0 = none)
+	cancelled map[int]int64     // unit -> instant at which its request context was cancelled from outside
+	emitters  sync.WaitGroup
 }
 
 func newWorld(p *Plan, start time.Time) *world {
 	w := &world{p: p, start: start, entries: map[string]*Entry{}, unitOf: map[string]int{}, rel: map[string]chan struct{}{},
 		relDone: map[string]bool{}, invoked: map[string]int{}, returned: map[string]int64{}, subIDs: map[string]string{},
-		notified: map[string]int{}, racy: map[int]bool{}, timerAt: map[int]int64{}}
+		notified: map[string]int{}, racy: map[int]bool{}, timerAt: map[int]int64{}, cancelled: map[int]int64{}}
 	for ui := range p.Units {
 		u := &p.Units[ui]
 		for ei := range u.Entries {
@@ -194,8 +195,13 @@ func (s *svc) Sleep(ctx context.Context, name string, ns int64, honour bool) (st
 // wokenByCancel: a context-honouring method returns because the call context was cancelled;
 // when that is the request timeout's own cancel(), its return races with the timeout write.
 func (w *world) wokenByCancel(name string) {
+	ui := w.unitOf[name]
 	w.mu.Lock()
-	w.racy[w.unitOf[name]] = true
+	// A planned outside cancellation goes through a gate (everything else is quiescent when it
+	// happens): decided. Only a wake-up at the instant the handler's own timer is due races.
+	if at := w.timerAt[ui]; at != 0 && w.now() == at {
+		w.racy[ui] = true
+	}
 	w.mu.Unlock()
 }
 
